@@ -565,8 +565,14 @@ def run_check(prop_id, tier, seed, replay=None):
         if changed:
             notes.append(f'Gen fragments changed since last run: {changed}')
             log('Gen changed:', changed)
+        shape_changed = [e[6:] for e in errs if e.startswith('SHAPE ')]
         for e in errs:
-            broken.append({'kind': 'extraction', 'what': e})
+            if not e.startswith('SHAPE '):
+                broken.append({'kind': 'extraction', 'what': e})
+        for e in shape_changed:
+            notes.append(f'source text changed shape, committed fragment kept, correspondence run escalated: {e}')
+            log('shape changed (not a verdict; the correspondence run is escalated):', e)
+        STATE['shape_changed'] = shape_changed
         ok, out = lake_build(list(P.LEAN_TARGETS) + ['otel_model'])
         lean_log = out
         proof_ok = ok
@@ -669,6 +675,37 @@ def _run_cases(P, prop_id, tier, seed, rng, t0, broken, notes, axioms, driver_ok
                 nontrivial.add(hashlib.sha1(c.line.encode()).hexdigest())
         except Exception:
             pass
+
+    # escalation: an extractor no longer found the text it looks for (tools/extract.py ShapeChanged).  Nothing is known to
+    # have changed in value; what has to be re-established is that the model still mirrors the code, and that is what the
+    # differential run shows - so run more of it (fresh generated cases, model AND implementation, oracle on every case).
+    escalated = 0
+    if STATE.get('shape_changed') and not failures and not disagreements and not broken and not replay and exes and driver_ok:
+        budget_s = 240 if tier == 'quick' else 1800
+        ts = time.time()
+        k = 0
+        while time.time() - ts < budget_s and not failures and not disagreements and k < 6:
+            k += 1
+            r2 = random.Random(rng.random())
+            extra = [c for c in P.generate(r2, 'quick') if c.harness in exes]
+            im2, mo2, _, mc2 = evaluate(P, extra, exes, want_model=True, budget_s=max(30, budget_s - (time.time() - ts)))
+            if mc2:
+                broken.append({'kind': 'model-driver', 'what': f'model driver failed on {len(mc2)} case(s): ' + str(mc2[0])[:500]})
+            for c, io, mo in zip(extra, im2, mo2):
+                if io is None:
+                    continue
+                escalated += 1
+                res = _oracle_fails(P, c, io)
+                if res is not None:
+                    failures.append({'case': c, 'impl': io, 'model': mo, 'clause': res[0], 'detail': res[1],
+                                     'sig': P.signature(c, io, res[0]) if hasattr(P, 'signature') else res[0]})
+                if mo is not None and not (P.agree(c, io, mo) if hasattr(P, 'agree') else io == mo):
+                    disagreements.append({'case': c, 'impl': io, 'model': mo})
+        known0 = {k0['sig'] for k0 in known}
+        if any(f['sig'] not in known0 for f in failures) or disagreements:
+            broken.append({'kind': 'extraction', 'what': 'shape changed and the escalated correspondence run no longer agrees: ' + '; '.join(STATE['shape_changed'])})
+        notes.append(f'escalated correspondence run: {escalated} further cases, {len(disagreements)} disagreements, {len(failures)} oracle failures')
+        log(f'escalated correspondence run: {escalated} further cases, {len(disagreements)} disagreements, {len(failures)} oracle failures')
 
     # search when the proof or the tie is broken but no failing input is in hand
     searched = 0
